@@ -20,7 +20,8 @@ RULE = ("base cases: 1-4 forked writer processes with an assignment of ids (cont
         "single-line texts with blanks, tabs, quotes, NUL, multi-byte UTF-8. Each base case: dry run, one run per "
         "(executed statement, occurrence) with a 120 ms delay in parent, writer and reader roles, random 2-3 delay "
         "combinations. Oracles: read/store history checker, final-state checks, flush and re-use, quiescence oracle. "
-        "distinct_nontrivial = distinct (base case, cross-process order of store/read events) executions.")
+        "distinct_nontrivial = distinct (base case, cross-process order of store/read events) executions."
+        " Also: a parent that stores before it forks the writers and while they run, a process forked before the first round that is used after flush(), readers created with a plain os.fork(), complete iterations while the writers run (checked against the store history), texts with characters that only str.splitlines() takes for line ends.")
 ASSUMPTIONS = [
     "texts are single lines (no '\\n', '\\r') encodable as UTF-8; every process that writes is forked before it "
     "writes (one file per process, as documented); flush() is called after every process closed the storage",
